@@ -550,6 +550,21 @@ func runRBCAttack(r *prng, id int) *jScenario {
 			w.deliver(flight{to: honest[0], from: sender, data: wirePayload(b), kind: "bbcast"})
 		}
 		steps = r.intn(4)
+	} else if r.chance(1, 3) {
+		// split vouchers: every honest party gets its own payload from the sender and, before any honest acknowledgement
+		// moves, the acknowledgement of every other Byzantine member for exactly that payload. Each honest party then
+		// holds (Byzantine members + itself) vouchers for a different payload: harmless as long as a hand-over needs
+		// every other party, a disagreement as soon as it needs fewer.
+		for _, h := range honest {
+			pay[h] = mkPayload(r, round, true)
+			w.deliver(flight{to: h, from: sender, data: wirePayload(pay[h]), kind: "bbcast"})
+		}
+		for _, h := range honest {
+			for _, b := range byz[1:] {
+				w.deliver(flight{to: h, from: b, data: wireAck(sha(pay[h]), sender, round), kind: "back"})
+			}
+		}
+		steps = r.intn(4)
 	}
 	for i := 0; i < steps; i++ {
 		if len(w.pool) > 0 && r.chance(2, 5) {
